@@ -178,6 +178,8 @@ impl Prop for C16 {
         out.extend(super::files::amplification_cases());
         // the ANM container against `Files.readAnm` (Model/FilesAnm.lean)
         out.extend(super::files_anm::gen_cases(rng, scale, true));
+        // the stack ECL container (TH10+) against `Files.readEcl10` (Model/FilesEcl10.lean, Model/InstrIO10.lean)
+        out.extend(super::files_ecl10::gen_cases(rng, scale, true));
         // file level
         let mut seeds: Vec<(Format, truth::Game, Vec<u8>, String)> = bundled_files();
         for _ in 0..60 * scale.min(5) {
@@ -219,6 +221,8 @@ impl Prop for C16 {
             Some("rinstrs") => eval_rinstrs(case),
             Some("rfile") => super::files::eval_rfile(case),
             Some("ranm") => super::files_anm::eval_ranm(case),
+            Some("recl10") => super::files_ecl10::eval_recl10(case),
+            Some("rinstrs10") => super::files_ecl10::eval_rinstrs10(case),
             Some("readalloc") => super::files::eval_readalloc(case),
             Some("readfile") => {
                 let a = case.args();
